@@ -2636,7 +2636,7 @@ class FGD:
                         if tok is Token.BRACK_OPEN:
                             break
                         elif tok is Token.PAREN_ARGS and tags is None:
-                            tags = validate_tags(tok_value.split(','), tokeniser.error)
+                            tags = validate_tags([tag.strip() for tag in tok_value.split(',')], tokeniser.error)
                         else:
                             raise tokeniser.error(tok)
 
